@@ -21,6 +21,22 @@ def mc_spanner(res, tier):
                'one closing shortest path per dropped edge has dimension dim(G) and weight <= (2k-1) Opt (= Opt for k=1)', r)
 
 
+def mc_hopbfs(res, tier):
+    r = vlib.tlc_ok('HopBfs', 'MC_HopBfs_q.cfg' if tier == 'quick' else 'MC_HopBfs_t.cfg', extra=['-coverage', '1'], timeout=3000)
+    if r['violated']:
+        raise vlib.HarnessError('MC_HopBfs violated\n' + r['out'][-3000:])
+    res.add_mc('HopBfs.tla: is_bfs_reachable step by step (pop; hop test; target test; push unvisited neighbours in EVERY adjacency order) answers '
+               'HopDist(s,t) <= max_hops and terminates, every simple graph n<=%d, every s, t, bound' % (4 if tier == 'quick' else 5), r)
+
+
+def mc_dijkstra(res, tier):
+    r = vlib.tlc_ok('Dijkstra', 'MC_Dijkstra_q.cfg' if tier == 'quick' else 'MC_Dijkstra_t.cfg', extra=['-coverage', '1'], timeout=3000)
+    if r['violated']:
+        raise vlib.HarnessError('MC_Dijkstra violated\n' + r['out'][-3000:])
+    res.add_mc('Dijkstra.tla: detail/dijkstra.hpp step by step (pop ANY minimum, relax out-edges in ANY order, source protected by the w == s test): '
+               'final distances exact, reached = reachable, every predecessor edge tight, terminates', r)
+
+
 def approx_inputs(rng, tier, wd):
     N = 4
     gs, _ = gens.tlc_graphs(wd, N, [1, 2])
@@ -116,6 +132,7 @@ def check_C15(res, tier, seed, replay):
                         'std::sort tie order cannot be forced in the real code: every scan order is covered on the model (MC_Spanner)']
     if not replay:
         mc_spanner(res, tier)
+        mc_hopbfs(res, tier)
     inputs, _ = run(res, tier, seed, replay, None, spanner=True, ks='1,2,3,4' if tier == 'quick' else '1,2,3,4,5')
     res.cov['distinct_nontrivial'] = len({canon(g) for g, _ in inputs if gens.csd(g) >= 1})
     res.cov['rule'] = 'spanner built for every input and k; non-trivial = distinct graph with at least one cycle (some edge can be dropped for large k)'
@@ -125,6 +142,7 @@ def check_C05(res, tier, seed, replay):
     res.assumptions += ['edge descriptors are projected to caller edge indices by property-node address AFTER the call returned; a descriptor of another graph maps to 0 (foreign-edge)']
     if not replay:
         mc_spanner(res, tier)
+        mc_dijkstra(res, tier)
     inputs, _ = run(res, tier, seed, replay, C05, ks='1,2,3,4')
     res.cov['distinct_nontrivial'] = len({canon(g) for g, _ in inputs if gens.csd(g) >= 2})
     res.cov['rule'] = 'each input x k in 1..4 x three approximate entry points x double/int; non-trivial = distinct graph with cycle-space dimension >= 2'
@@ -133,6 +151,8 @@ def check_C05(res, tier, seed, replay):
 def check_C06(res, tier, seed, replay):
     if not replay:
         mc_spanner(res, tier)
+        mc_hopbfs(res, tier)
+        mc_dijkstra(res, tier)
     inputs, _ = run(res, tier, seed, replay, C06, ks='0,1,2,3,4')
     res.cov['distinct_nontrivial'] = len({canon(g) for g, _ in inputs if gens.csd(g) >= 2})
     res.cov['rule'] = 'each input x k in 0..4 x three approximate entry points x double/int; non-trivial = distinct graph with cycle-space dimension >= 2'
